@@ -108,6 +108,12 @@ func (t c20Task) String() string {
 	return fmt.Sprintf("%s/%s[%d,%d] b=%d c=%d chain=%d urls=%s", t.Src, t.IG, t.Start, t.Stop, t.Batch, t.Conc, t.Chain, t.URLs)
 }
 
+// c20WithPassword puts credentials into a node URL (sources behind an authenticating proxy): what a task requests
+// is the configured URL, credentials included.
+func c20WithPassword(u string) string {
+	return strings.Replace(u, "http://", "http://shovel:s3cr3t-pw@", 1)
+}
+
 // c20URLs lists the URLs a task's source client rotates through.
 func c20URLs(src shovel.Source) string {
 	seen := map[string]bool{}
@@ -295,7 +301,7 @@ func c20Run(c *vk.Case) {
 	var fsrcs, figs []any
 	for _, s := range srcs {
 		if s.InFile {
-			fsrcs = append(fsrcs, map[string]any{"name": s.Name, "chain_id": s.ChainID, "url": s.node.URL("file-" + s.Name), "poll_duration": "3ms", "batch_size": s.Batch, "concurrency": s.Conc})
+			fsrcs = append(fsrcs, map[string]any{"name": s.Name, "chain_id": s.ChainID, "url": c20WithPassword(s.node.URL("file-" + s.Name)), "poll_duration": "3ms", "batch_size": s.Batch, "concurrency": s.Conc})
 		}
 	}
 	plantedInFile := false
@@ -390,7 +396,7 @@ func c20Run(c *vk.Case) {
 		if s.InFile {
 			cid += 100
 		}
-		if _, err := pool.Exec(ctx, `insert into shovel.sources(chain_id, name, url) values ($1, $2, $3)`, int(cid), s.Name, s.node.URL("db-"+s.Name)); err != nil {
+		if _, err := pool.Exec(ctx, `insert into shovel.sources(chain_id, name, url) values ($1, $2, $3)`, int(cid), s.Name, c20WithPassword(s.node.URL("db-"+s.Name))); err != nil {
 			c.Inconclusive("storing source: %v", err)
 			return false
 		}
@@ -431,10 +437,10 @@ func c20Run(c *vk.Case) {
 				// the winning copy of the integration (file over database) carries ref.Start;
 				// source settings come from the file copy of the source when there is one,
 				// a database-only source has none (defaults 1/1)
-				t := c20Task{Src: ref.Name, IG: ig.Name, Start: ref.Start, Stop: ref.Stop, Batch: 1, Conc: 1, Chain: s.ChainID, URLs: s.node.URL("db-" + s.Name)}
+				t := c20Task{Src: ref.Name, IG: ig.Name, Start: ref.Start, Stop: ref.Stop, Batch: 1, Conc: 1, Chain: s.ChainID, URLs: c20WithPassword(s.node.URL("db-" + s.Name))}
 				if s.InFile {
 					t.Batch, t.Conc = s.Batch, s.Conc
-					t.URLs = s.node.URL("file-" + s.Name)
+					t.URLs = c20WithPassword(s.node.URL("file-" + s.Name))
 				}
 				res = append(res, t.String())
 			}
